@@ -133,6 +133,18 @@ func gen(tier string) []proto.Item {
 				items = append(items, proto.Item{Scn: s, Class: fmt.Sprintf("%s/late-duplicate-of-ttl%d", v, t)})
 			}
 		}
+		if k := proto.Info(v).Kind; k == "udp4" || k == "udp6" {
+			// the UDP destination rejects the probes with host / administratively-prohibited unreachable (a host firewall): it
+			// has answered all the same, the TTLs still to come are not probed
+			for _, form := range []string{"duHost", "duAdmin"} {
+				s := proto.Scn{Variant: v, First: 1, Last: 12, Dest: 3, IPIDBase: 1000, EchoBase: 50, TimeoutMs: 300, DelayMs: 10}
+				s.Hops = map[int]proto.HopSpec{}
+				for t := 3; t <= 12; t++ {
+					s.Hops[t] = proto.HopSpec{AtTarget: true, Form: form}
+				}
+				items = append(items, proto.Item{Scn: s, Class: fmt.Sprintf("%s/destination-answers-%s", v, form)})
+			}
+		}
 		if proto.Info(v).Parallel {
 			// the destination's first answer is for a TTL that already holds a router's answer (route change, ECMP): the run
 			// has seen the destination all the same, the TTLs still to come are not probed (one in flight excepted)
